@@ -642,6 +642,9 @@ func (e *examiner) located(eval string, r gens.Repr, lower bool, paths []jp.Expr
 			return nil, false
 		}
 		g := doGet(e.c, p, r.Value)
+		if len(p) == 0 {
+			g = evalRes{vals: []any{r.Value}} // Walk leaves the root out of its paths: the empty path is the document
+		}
 		if g.pv != nil || len(g.vals) != 1 {
 			e.add(eval, r.Name, "wrong-path", "a path whose own Get yields exactly one element", fmt.Sprintf("%s yields %d elements (panic: %v)", p, len(g.vals), g.pv))
 			return nil, false
@@ -870,6 +873,9 @@ func filterBlamed(c *core.Ctx, spec gens.JPExpr, t *tree, f finding) bool {
 }
 
 func signature(spec gens.JPExpr, t *tree, f finding, filterBlamed bool) string {
+	if len(spec) == 1 {
+		return core.Sig(f.eval, "no-fragment:"+spec[0].K, gens.ReprClass(f.repr), f.kind)
+	}
 	f1 := spec[1]
 	if last := spec[len(spec)-1]; len(spec) > 2 && last.RootFilter() && filterBlamed {
 		// a $-rooted filter cannot be re-rooted by the shrinker: such cases are
@@ -1113,6 +1119,17 @@ func run(c *core.Ctx) {
 		}
 		c.Add(fmt.Sprintf("pass%d_documents", pi+1), int64(len(trees)))
 		stop := false
+		if pi == 0 && c.Shard == 0 {
+			// the paths of no fragment at all: $ and @ select the document itself
+			for _, head := range []string{"root", "at"} {
+				spec := gens.JPExpr{gens.JPSimple(head)}
+				x := spec.Build()
+				c.Add("paths", 1)
+				for _, t := range trees {
+					judge(c, spec, x, t)
+				}
+			}
+		}
 		p.alpha.EachPath(p.k, func(idx []int) bool {
 			if len(idx) < p.minK || p.alpha.Class[idx[len(idx)-1]] == "desc" {
 				return true
